@@ -266,6 +266,7 @@ func writeReplay(prop string, ob *sx.Obligation, f *sx.Finding, n int, bi *build
 }
 
 var outcomeRe = regexp.MustCompile(`VP-OUTCOME: (.*)`)
+var crashRe = regexp.MustCompile(`(?m)^panic: (.*)\n(?:.*\n)*?goroutine \d+ \[`)
 
 func nativeReplay(path string, doc *replayDoc, bi *buildInfo) string {
 	args := []string{"test", "-v", "-vet=off", "-count=1", "-run", "^TestVPReplay$", "-overlay", bi.overlayJSON, "-timeout", "300s"}
@@ -285,6 +286,10 @@ func nativeReplay(path string, doc *replayDoc, bi *buildInfo) string {
 		return strings.TrimSpace(string(m[1]))
 	}
 	s := string(out)
+	if m := crashRe.FindStringSubmatch(s); m != nil {
+		// a panic in a goroutine other than the harness's takes the test process down
+		return "VP-PANIC (process crashed) " + strings.TrimSpace(m[1])
+	}
 	if len(s) > 600 {
 		s = s[len(s)-600:]
 	}
